@@ -4,6 +4,13 @@ set -e
 cd "$(dirname "$0")"
 export CARGO_NET_OFFLINE=true
 mkdir -p .build evidence findings
-(cd lean && lake build)
-(cd harness && cargo build --bins)
+cd lean
+targets="SteelVerif"
+for d in SteelVerif/C*/Driver.lean; do
+  p=$(basename $(dirname $d) | tr 'A-Z' 'a-z')
+  targets="$targets ${p}driver"
+done
+lake build $targets
+cd ../harness
+cargo build --bins
 echo setup-ok
